@@ -248,4 +248,168 @@ theorem mgAlign_direction (d s t tol : Rat) :
     simp [hc, h]
 
 
+/-! ## completeness and refusal around the tolerance: shifted targets -/
+
+/-- the exact (on-lattice) target next to a shifted one: same axes, shape, coordinate system and frame of reference, origin on
+the source voxel `first` of the permuted source -/
+def onLattice (src T : Geom) (p : Ax → Ax) (first st : Ax → Int) : Geom :=
+  { T with pos := (sliceGeom (permuted src p) first st T.shape).pos }
+
+theorem planAxis_shift (G T R : Geom) (hwf : WF G) (first : Ax → Int) (e : Ax → Rat) (tol : Rat) (htol : 0 ≤ tol)
+    (he : ∀ i, rabs (e i) ≤ tol ∧ -(1 / 2) < e i ∧ e i < 1 / 2)
+    (hT : T.pos = G.toRef (fun i => (first i : Rat) + e i)) (hR : R.pos = G.toRef (toRat first)) (hs : T.shape = R.shape)
+    (step : Int) (a : Ax) (rc rp : Bool) : planAxis G T step tol a rc rp = planAxis G R step tol a rc rp := by
+  unfold planAxis
+  have o1 : V3.dot (G.dir a) (V3.sub T.pos G.pos) = ((first a : Rat) + e a) * G.spacing a := by
+    rw [hT]; exact dot_toRef_sub G hwf _ a
+  have o2 : V3.dot (G.dir a) (V3.sub R.pos G.pos) = (first a : Rat) * G.spacing a := by
+    rw [hR]; exact dot_toRef_sub G hwf (toRat first) a
+  rw [o1, o2, hs]
+  rw [(mgCropPad_shift (first a) (e a) (G.spacing a) (ne_of_gt (hwf.spacing_pos a)) (he a).2.1 (he a).2.2 step (R.shape a)
+    (G.shape a) tol htol rc rp).1 (he a).1]
+
+theorem matchPlan_shift (G T R : Geom) (hwf : WF G) (first : Ax → Int) (e : Ax → Rat) (tol : Rat) (htol : 0 ≤ tol)
+    (he : ∀ i, rabs (e i) ≤ tol ∧ -(1 / 2) < e i ∧ e i < 1 / 2)
+    (hT : T.pos = G.toRef (fun i => (first i : Rat) + e i)) (hR : R.pos = G.toRef (toRat first)) (hs : T.shape = R.shape)
+    (steps : Ax → Int) : matchPlan G T steps tol = matchPlan G R steps tol := by
+  unfold matchPlan
+  simp only [planAxis_shift G T R hwf first e tol htol he hT hR hs]
+
+theorem matchAlign_congr (src T R : Geom) (tol : Rat) (hd : T.dir = R.dir) (hs : T.spacing = R.spacing) :
+    matchAlign src T tol = matchAlign src R tol := by
+  unfold matchAlign; rw [hd, hs]
+
+/-- **completeness inside the tolerance**: a target that is a reachable lattice (`onLattice`) shifted by `e i` source voxels
+along each axis, `|e i| ≤ tol` (and `< 1/2`), whose origin is within `tol` (as `geometry_equal` judges it) of the lattice
+point, is matched — with exactly the plan of the unshifted target; the result sits on the lattice -/
+theorem matchGeometry_shifted {α : Type} (src : Vol α) (T : Geom) (tol : Rat) (c : PadMode α)
+    (hwf : WF src.geom) (hshape : ∀ i, 1 ≤ T.shape i) (h0 : 0 < tol) (h1 : tol ≤ 1)
+    (p : Ax → Ax) (first st : Ax → Int) (hp : isPerm p = true) (hst : ∀ i, st i ≠ 0)
+    (hdir : T.dir = (sliceGeom (permuted src.geom p) first st T.shape).dir)
+    (hsp : T.spacing = (sliceGeom (permuted src.geom p) first st T.shape).spacing)
+    (hcs : T.cs = src.geom.cs) (hfor : forConflict src.geom T = false)
+    (e : Ax → Rat) (he : ∀ i, rabs (e i) ≤ tol ∧ -(1 / 2) < e i ∧ e i < 1 / 2)
+    (hpos : T.pos = (permuted src.geom p).toRef (fun i => (first i : Rat) + e i))
+    (hclose : VecWithin tol (onLattice src.geom T p first st).pos T.pos) :
+    ∃ r, matchGeometry src T tol c = .ok r ∧ matchGeometry src (onLattice src.geom T p first st) tol c = .ok r ∧
+      (∀ i, r.geom.col i = T.col i) ∧ r.geom.pos = (onLattice src.geom T p first st).pos ∧ (∀ i, r.geom.shape i = T.shape i) := by
+  set R := onLattice src.geom T p first st with hRdef
+  have hRreach : Reachable src.geom R := ⟨p, first, st, hp, hst, hdir, hsp, rfl, hcs, hfor⟩
+  obtain ⟨r, hr, hcol, hposr, hshr⟩ := matchGeometry_complete src R tol c hwf hshape h0 h1 hRreach
+  obtain ⟨_, _, p', steps, nv, pl, hal, hperm, hplan, happ, hge⟩ := matchGeometry_ok src R tol c r hr
+  have hal' : matchAlign src.geom T tol = .ok (p', steps) := by
+    rw [matchAlign_congr src.geom T R tol rfl rfl]; exact hal
+  have hpp : p' = p ∧ steps = st := by
+    have := matchAlign_reach src.geom R hwf tol h0 h1 p first st hst hdir hsp
+    rw [hal] at this
+    simpa using this
+  obtain ⟨rfl, rfl⟩ := hpp
+  obtain ⟨nv', hnv', hg'⟩ := permute_step src p' hp
+  have hnveq : nv' = nv := by rw [hperm] at hnv'; simpa using hnv'.symm
+  subst hnveq
+  have hplan' : matchPlan nv'.geom T steps tol = .ok pl := by
+    rw [hg', matchPlan_shift (permuted src.geom p') T R (hwf.permuted p' hp) first e tol (le_of_lt h0) he hpos rfl rfl, ← hg']
+    exact hplan
+  have hge' : geometryEqual r.geom T (some tol) = .ok true := by
+    obtain ⟨gs, gc, gf, _⟩ := (geometryEqual_true_iff r.geom R (some tol)).mp hge
+    rw [geometryEqual_true_iff]
+    refine ⟨gs, gc, gf, ?_, ?_⟩
+    · intro i
+      have : r.geom.col i = T.col i := hcol i
+      rw [this]; exact vecWithin_self tol (le_of_lt h0) _
+    · rw [hposr]; exact hclose
+  refine ⟨r, ?_, hr, hcol, hposr, hshr⟩
+  unfold matchGeometry
+  have hhead : mgHead src.geom.frameOfRef T.frameOfRef src.geom.cs T.cs = .ok true := by
+    rcases mgHead_spec src.geom T with ⟨_, _, hh⟩ | ⟨hbad, _⟩
+    · exact hh
+    · rcases hbad with hb | hb
+      · rw [hfor] at hb; cases hb
+      · exact absurd hcs.symm hb
+  rw [hhead]
+  simp only []
+  rw [hal']
+  simp only []
+  rw [hperm]
+  simp only []
+  rw [hplan']
+  simp only []
+  rw [happ]
+  simp only []
+  rw [hge']
+
+theorem planAxis_shift_refused (G T : Geom) (hwf : WF G) (first : Ax → Int) (e : Ax → Rat) (tol : Rat) (htol : 0 ≤ tol)
+    (hT : T.pos = G.toRef (fun i => (first i : Rat) + e i)) (step : Int) (a : Ax) (rc rp : Bool)
+    (h1 : -(1 / 2) < e a) (h2 : e a < 1 / 2) (hbad : tol < rabs (e a)) : planAxis G T step tol a rc rp = .error .runtime := by
+  unfold planAxis
+  have o1 : V3.dot (G.dir a) (V3.sub T.pos G.pos) = ((first a : Rat) + e a) * G.spacing a := by
+    rw [hT]; exact dot_toRef_sub G hwf _ a
+  rw [o1, (mgCropPad_shift (first a) (e a) (G.spacing a) (ne_of_gt (hwf.spacing_pos a)) h1 h2 step (T.shape a)
+    (G.shape a) tol htol rc rp).2 hbad]
+
+/-- **… and refused outside it**: if along some axis the origin is more than `tol` source voxels (and less than half a voxel)
+off the lattice, `match_geometry` raises RuntimeError -/
+theorem matchGeometry_shift_refused {α : Type} (src : Vol α) (T : Geom) (tol : Rat) (c : PadMode α)
+    (hwf : WF src.geom) (hshape : ∀ i, 1 ≤ T.shape i) (h0 : 0 < tol) (h1 : tol ≤ 1)
+    (p : Ax → Ax) (first st : Ax → Int) (hp : isPerm p = true) (hst : ∀ i, st i ≠ 0)
+    (hdir : T.dir = (sliceGeom (permuted src.geom p) first st T.shape).dir)
+    (hsp : T.spacing = (sliceGeom (permuted src.geom p) first st T.shape).spacing)
+    (hcs : T.cs = src.geom.cs) (hfor : forConflict src.geom T = false)
+    (e : Ax → Rat) (he : ∀ i, -(1 / 2) < e i ∧ e i < 1 / 2)
+    (hpos : T.pos = (permuted src.geom p).toRef (fun i => (first i : Rat) + e i))
+    (hbad : ∃ i, tol < rabs (e i)) : matchGeometry src T tol c = .error .runtime := by
+  have htol := le_of_lt h0
+  have hwfp := hwf.permuted p hp
+  -- every axis: refused, or planned like the on-lattice target (which is planned)
+  have hax : ∀ a rc rp, planAxis (permuted src.geom p) T (st a) tol a rc rp = .error .runtime ∨
+      ∃ pl, planAxis (permuted src.geom p) T (st a) tol a rc rp = .ok pl := by
+    intro a rc rp
+    by_cases hb : tol < rabs (e a)
+    · exact Or.inl (planAxis_shift_refused _ T hwfp first e tol htol hpos (st a) a rc rp (he a).1 (he a).2 hb)
+    · right
+      have hle : rabs (e a) ≤ tol := not_lt.mp hb
+      unfold planAxis
+      have o1 : V3.dot ((permuted src.geom p).dir a) (V3.sub T.pos (permuted src.geom p).pos) =
+          ((first a : Rat) + e a) * (permuted src.geom p).spacing a := by
+        rw [hpos]; exact dot_toRef_sub _ hwfp _ a
+      rw [o1, (mgCropPad_shift (first a) (e a) _ (ne_of_gt (hwfp.spacing_pos a)) (he a).1 (he a).2 (st a) (T.shape a)
+        ((permuted src.geom p).shape a) tol htol rc rp).1 hle]
+      obtain ⟨r, hr, _⟩ := mgCropPad_axisOK (first a) ((permuted src.geom p).spacing a) (ne_of_gt (hwfp.spacing_pos a)) (st a)
+        (T.shape a) ((permuted src.geom p).shape a) (hst a) (hshape a) tol htol rc rp
+      rw [hr]; exact ⟨_, rfl⟩
+  have hplan : matchPlan (permuted src.geom p) T st tol = .error .runtime := by
+    obtain ⟨i, hi⟩ := hbad
+    have hbadax : ∀ rc rp, planAxis (permuted src.geom p) T (st i) tol i rc rp = .error .runtime := fun rc rp =>
+      planAxis_shift_refused _ T hwfp first e tol htol hpos (st i) i rc rp (he i).1 (he i).2 hi
+    unfold matchPlan
+    rcases hax 0 false false with h | ⟨p0, h⟩
+    · rw [h]
+    · rw [h]; simp only []
+      rcases hax 1 p0.requiresCrop p0.requiresPad with h' | ⟨p1, h'⟩
+      · rw [h']
+      · rw [h']; simp only []
+        rcases hax 2 p1.requiresCrop p1.requiresPad with h'' | ⟨p2, h''⟩
+        · rw [h'']
+        · exfalso
+          rcases ax_cases i with rfl | rfl | rfl
+          · rw [hbadax] at h; cases h
+          · rw [hbadax] at h'; cases h'
+          · rw [hbadax] at h''; cases h''
+  unfold matchGeometry
+  have hhead : mgHead src.geom.frameOfRef T.frameOfRef src.geom.cs T.cs = .ok true := by
+    rcases mgHead_spec src.geom T with ⟨_, _, hh⟩ | ⟨hb, _⟩
+    · exact hh
+    · rcases hb with hb | hb
+      · rw [hfor] at hb; cases hb
+      · exact absurd hcs.symm hb
+  rw [hhead]
+  simp only []
+  rw [matchAlign_reach src.geom T hwf tol h0 h1 p first st hst hdir hsp]
+  simp only []
+  obtain ⟨nv, hnv, hg⟩ := permute_step src p hp
+  rw [hnv]
+  simp only []
+  rw [hg, hplan]
+
+
 end HdVerif.Match
